@@ -3,6 +3,7 @@ import GlyModel.Smiles.Tokenize
 import GlyProofs.Smiles.Relabel
 import GlyProofs.Smiles.TreeTheorem
 import GlyProofs.Smiles.Sanitize
+import GlyProofs.Api.LifecycleLemmas
 /-
   C02 — Every non-empty result is a valid, whole, placeholder-free molecule. (Property theorems only.)
 -/
@@ -97,5 +98,24 @@ example :
     sem [c, .lpar, n, .lpar, c, o, .rpar, .rpar, o] = sem [c, .lpar, n, c, o, .rpar, o] ∧
     (sem [c, .lpar, n, c, o, .rpar, o]).isSome = true := by
   decide
+
+open Gly.Life in
+/-- **Nothing leaves a `Glycan` object unchecked** (Model `Life.construct` / `Life.getSmiles` of `__parse`, `get_smiles`, `__release`;
+    tied to glycan.py by comparing what consecutive `get_smiles()` calls return with the Model fed with the observed walk / merge /
+    release results): for every option combination, eager or lazy assembly, first or repeated call, the string handed out is empty
+    or has passed the release gate, and the object stays in such a state. -/
+theorem C02_every_delivery_released (valid : List Char → Bool) (treeOnly full tfCtor : Bool) (merged : Option (List Char)) (o o' : Obj)
+    (hc : construct valid treeOnly full tfCtor merged = some o)
+    (tfLazy : Bool) (mergedLazy : Option (List Char)) (r : List Char) (h : getSmiles valid o tfLazy mergedLazy = some (r, o')) :
+    Deliverable valid r ∧ Inv valid o' :=
+  getSmiles_deliverable valid o o' tfLazy mergedLazy r (construct_inv valid treeOnly full tfCtor merged o hc) h
+
+open Gly.Life in
+/-- … and asking again returns the same string, whatever a repeated walk or merge would produce. -/
+theorem C02_get_smiles_stable (valid : List Char → Bool) (treeOnly full tfCtor : Bool) (merged : Option (List Char)) (o o' : Obj)
+    (hc : construct valid treeOnly full tfCtor merged = some o)
+    (tf1 : Bool) (m1 : Option (List Char)) (r : List Char) (h : getSmiles valid o tf1 m1 = some (r, o'))
+    (tf2 : Bool) (m2 : Option (List Char)) : ∃ o'', getSmiles valid o' tf2 m2 = some (r, o'') :=
+  getSmiles_stable valid treeOnly full tfCtor merged o o' hc tf1 m1 r h tf2 m2
 
 end Gly.Props.C02
